@@ -99,7 +99,7 @@ Proof.
     + constructor; [exact Hkv | apply IH; exact Hm].
 Qed.
 
-Section Refine.
+Section Refine1.
 Variable g : grammar.
 Variable input : list N.
 Variable orc : nat -> nat -> option nat.
@@ -111,10 +111,10 @@ Hypothesis Horc : orc_pos orc.
 
 Record inv (s : st) : Prop := mkInv {
   inv_ws : ws s = x_ws x; inv_skip : skipws s = x_skip x; inv_cmt : in_cmt s = false;
-  inv_cpos : cpos_id (cpos s) }.
+  inv_cpos : cpos_id (cpos s); inv_eol : eolterm s = false }.
 
 Lemma inv_set_pos p s : inv s -> inv (set_pos p s).
-Proof. intros [H1 H2 H3 H4]. constructor; assumption. Qed.
+Proof. intros [H1 H2 H3 H4 H5]. constructor; assumption. Qed.
 
 Definition valid (nid : nat) : Prop := nid < length (g_nodes g).
 
@@ -140,7 +140,7 @@ Lemma match_pre_sim rec k s :
   exists s1, match_pre g input rec k s = Ok RNone s1 /\ inv s1 /\
              pos s1 = (if x_skip x then sws input x (pos s) else pos s) /\ pos s <= pos s1.
 Proof.
-  intros [H1 H2 H3 H4]. unfold match_pre, maybe_skip_ws. rewrite H2.
+  intros [H1 H2 H3 H4 H5]. unfold match_pre, maybe_skip_ws. rewrite H2.
   assert (Eeff : eff_ws x = x_ws x) by (unfold eff_ws; rewrite Hx_eol; reflexivity).
   destruct (x_skip x) eqn:Esk.
   - unfold do_skip_ws. cbn [skipws set_pos cpos pos in_cmt ws].
@@ -237,55 +237,150 @@ Proof.
     + exact I.
 Qed.
 
-Lemma rep_sim rec srec e plus :
-  sim rec srec -> valid e -> (exists k, prodb g k e = true) ->
+(* one iteration of a repetition after the (optional) separator, named so that the loops unfold to it *)
+Definition rep_elem (rec : nat -> bool -> st -> out) e sep plus k first c_pos (acc1 : list res) (s1 : st) : out :=
+  match rec e false s1 with
+  | Ok r s2 => if truthy r then rep_loop rec e sep plus k false (acc1 ++ [r]) s2 else Ok (RList acc1) s2
+  | Fail s2 => if (plus && first)%bool then Fail (set_pos c_pos s2) else Ok (RList acc1) (set_pos c_pos s2)
+  | Abort w => Abort w
+  end.
+Lemma rep_loop_S rec e sep plus k first acc s :
+  rep_loop rec e sep plus (S k) first acc s =
+  match sep with
+  | Some sp =>
+    if first then rep_elem rec e sep plus k first (pos s) acc s
+    else match rec sp false s with
+         | Ok sr s1 => rep_elem rec e sep plus k first (pos s) (if truthy sr then acc ++ [sr] else acc) s1
+         | Fail s1 => if (plus && first)%bool then Fail (set_pos (pos s) s1) else Ok (RList acc) (set_pos (pos s) s1)
+         | Abort w => Abort w
+         end
+  | None => rep_elem rec e sep plus k first (pos s) acc s
+  end.
+Proof. reflexivity. Qed.
+
+Definition srep_elem (srec : nat -> bool -> sctx -> nat -> sres) e sep plus k first (acc : list stree) p
+           (sts : list stree) p1 : sres :=
+  match srec e false x p1 with
+  | SOk ts p2 => if Nat.ltb p p2 then srep true srec e sep plus x k false (acc ++ sts ++ ts) p2
+                 else if (plus && first)%bool then SOk (acc ++ sts ++ ts) p2
+                 else if (plus && first)%bool then SFail else SOk acc p
+  | SFail => if (plus && first)%bool then SFail else SOk (acc ++ sts) p
+  | SOut => SOut
+  end.
+Lemma srep_S srec e sep plus k first acc p :
+  srep true srec e sep plus x (S k) first acc p =
+  match sep with
+  | Some sp =>
+    if first then srep_elem srec e sep plus k first acc p [] p
+    else match srec sp false x p with
+         | SOk sts p1 => srep_elem srec e sep plus k first acc p sts p1
+         | SFail => if (plus && first)%bool then SFail else SOk acc p
+         | SOut => SOut
+         end
+  | None => srep_elem srec e sep plus k first acc p [] p
+  end.
+Proof.
+  cbn [srep]. unfold srep_elem. rewrite app_nil_r.
+  destruct sep as [sp|]; [destruct first|]; try reflexivity.
+Qed.
+
+(* repetitions, with or without separator; the reference side is the trailing-separator variant *)
+Definition rep_post (plus first : bool) (acc : list res) (sacc : list stree) (s : st) (r : res) (s' : st)
+           (ts : list stree) : Prop :=
+  exists acc', r = RList acc' /\ erase_all ts = flatten (RList acc') /\ clean (RList acc') /\ inv s' /\ pos s <= pos s' /\
+    Forall (fun r => truthy r = true) acc' /\
+    (exists rest, flatten (RList acc') = flatten (RList acc) ++ rest) /\
+    (first = true -> (acc' = acc /\ ts = sacc) \/ flatten (RList acc') <> []) /\
+    ((plus && first)%bool = true -> flatten (RList acc') <> [] /\ pos s < pos s').
+
+Lemma rep_sim rec srec e sep plus :
+  sim rec srec -> valid e -> (exists k, prodb g k e = true) -> (forall sp, sep = Some sp -> valid sp) ->
   forall k first acc sacc s, inv s -> erase_all sacc = flatten (RList acc) -> clean (RList acc) ->
   Forall (fun r => truthy r = true) acc ->
-  match rep_loop rec e None plus k first acc s with
-  | Ok r s' => exists acc' ts, r = RList acc' /\ srep srec e None plus x k first sacc (pos s) = SOk ts (pos s') /\
-       erase_all ts = flatten (RList acc') /\ clean (RList acc') /\ inv s' /\ pos s <= pos s' /\
-       Forall (fun r => truthy r = true) acc' /\
-       ((acc' = acc /\ ts = sacc) \/ flatten (RList acc') <> []) /\
-       ((plus && first)%bool = true -> flatten (RList acc') <> [] /\ pos s < pos s')
-  | Fail s' => srep srec e None plus x k first sacc (pos s) = SFail /\ inv s'
+  match rep_loop rec e sep plus k first acc s with
+  | Ok r s' => exists ts, srep true srec e sep plus x k first sacc (pos s) = SOk ts (pos s') /\
+                          rep_post plus first acc sacc s r s' ts
+  | Fail s' => srep true srec e sep plus x k first sacc (pos s) = SFail /\ inv s'
   | Abort _ => True
   end.
 Proof.
-  intros Hsim He [ke Hke]. induction k as [|k IH]; intros first acc sacc s Hinv Hea Hcl Htr; [exact I|].
-  cbn [rep_loop srep].
-  pose proof (Hsim e false s Hinv He) as HS.
-  destruct (rec e false s) as [r s2|s2|w] eqn:E.
-  - destruct HS as [ts1 [Es [Ee [Hcr [Hinv2 [Hle Hp]]]]]]. destruct (Hp ke Hke) as [Hne Hlt].
-    rewrite (clean_truthy _ Hcr Hne). rewrite Es.
-    assert (Hltb : Nat.ltb (pos s) (pos s2) = true) by (apply Nat.ltb_lt; exact Hlt). rewrite Hltb.
-    cbn [app].
-    assert (He1 : erase_all (sacc ++ ts1) = flatten (RList (acc ++ [r]))) by (rewrite erase_all_app, flatten_app, Hea, Ee; reflexivity).
-    assert (Hcl1 : clean (RList (acc ++ [r]))) by (apply clean_list_app; assumption).
-    assert (Htr1 : Forall (fun r => truthy r = true) (acc ++ [r])).
-    { apply Forall_app. split; [exact Htr|]. constructor; [apply clean_truthy; assumption | constructor]. }
-    specialize (IH false (acc ++ [r]) (sacc ++ ts1) s2 Hinv2 He1 Hcl1 Htr1).
-    destruct (rep_loop rec e None plus k false (acc ++ [r]) s2) as [r' s'|s'|w'] eqn:E'.
-    + destruct IH as [acc' [ts [Er [Es' [Ee' [Hcl' [Hinv' [Hle' [Htr' [Hdich Hpf]]]]]]]]]].
-      assert (Hne' : flatten (RList acc') <> []).
-      { destruct Hdich as [[-> _]|X]; [|exact X]. rewrite flatten_app. intro X. apply app_eq_nil in X as [_ X]. contradiction. }
-      exists acc', ts.
-      split; [exact Er|]. split; [exact Es'|]. split; [exact Ee'|]. split; [exact Hcl'|]. split; [exact Hinv'|].
-      split; [lia|]. split; [exact Htr'|]. split; [right; exact Hne'|]. intros _. split; [exact Hne' | lia].
-    + exact IH.
-    + exact I.
-  - destruct HS as [Es Hinv2]. rewrite Es.
-    destruct (plus && first)%bool eqn:Epf.
-    + split; [reflexivity | apply inv_set_pos; exact Hinv2].
-    + exists acc, sacc. cbn [pos set_pos].
-      split; [reflexivity|]. split; [reflexivity|]. split; [exact Hea|]. split; [exact Hcl|].
-      split; [apply inv_set_pos; exact Hinv2|]. split; [lia|]. split; [exact Htr|].
-      split; [left; split; reflexivity|]. intro X. discriminate.
-  - exact I.
+  intros Hsim He [ke Hke] Hsepv. induction k as [|k IH]; intros first acc sacc s Hinv Hea Hcl Htr; [exact I|].
+  (* the element step, for any accumulated prefix *)
+  assert (Helem : forall acc1 sts s1,
+            inv s1 -> pos s <= pos s1 -> erase_all (sacc ++ sts) = flatten (RList acc1) -> clean (RList acc1) ->
+            Forall (fun r => truthy r = true) acc1 ->
+            (exists rest, flatten (RList acc1) = flatten (RList acc) ++ rest) ->
+            (first = true -> acc1 = acc /\ sts = []) ->
+            match rep_elem rec e sep plus k first (pos s) acc1 s1 with
+            | Ok r s' => exists ts, srep_elem srec e sep plus k first sacc (pos s) sts (pos s1) = SOk ts (pos s') /\
+                                    rep_post plus first acc sacc s r s' ts
+            | Fail s' => srep_elem srec e sep plus k first sacc (pos s) sts (pos s1) = SFail /\ inv s'
+            | Abort _ => True
+            end).
+  { intros acc1 sts s1 Hinv1 Hle1 He1 Hcl1 Htr1 [rest1 Hrest1] Hfirst.
+    unfold rep_elem, srep_elem.
+    pose proof (Hsim e false s1 Hinv1 He) as HS.
+    destruct (rec e false s1) as [r s2|s2|w] eqn:E.
+    - destruct HS as [ts1 [Es [Ee [Hcr [Hinv2 [Hle Hp]]]]]]. destruct (Hp ke Hke) as [Hne Hlt].
+      rewrite (clean_truthy _ Hcr Hne). rewrite Es.
+      assert (Hltb : Nat.ltb (pos s) (pos s2) = true) by (apply Nat.ltb_lt; lia). rewrite Hltb.
+      assert (He2 : erase_all (sacc ++ sts ++ ts1) = flatten (RList (acc1 ++ [r]))).
+      { rewrite app_assoc, erase_all_app, He1, flatten_app, Ee. reflexivity. }
+      assert (Hcl2 : clean (RList (acc1 ++ [r]))) by (apply clean_list_app; assumption).
+      assert (Htr2 : Forall (fun r => truthy r = true) (acc1 ++ [r])).
+      { apply Forall_app. split; [exact Htr1|]. constructor; [apply clean_truthy; assumption | constructor]. }
+      specialize (IH false (acc1 ++ [r]) (sacc ++ sts ++ ts1) s2 Hinv2 He2 Hcl2 Htr2).
+      destruct (rep_loop rec e sep plus k false (acc1 ++ [r]) s2) as [r' s'|s'|w'] eqn:E'.
+      + destruct IH as [ts [Es' [acc' [Er [Ee' [Hcl' [Hinv' [Hle' [Htr' [[rest Hrest] _]]]]]]]]]].
+        assert (Hne' : flatten (RList acc') <> []).
+        { rewrite Hrest, flatten_app. intro X. apply app_eq_nil in X as [X _]. apply app_eq_nil in X as [_ X]. contradiction. }
+        exists ts. split; [exact Es'|]. exists acc'.
+        split; [exact Er|]. split; [exact Ee'|]. split; [exact Hcl'|]. split; [exact Hinv'|]. split; [lia|].
+        split; [exact Htr'|]. split.
+        * exists (rest1 ++ flatten r ++ rest). rewrite Hrest, flatten_app, Hrest1. rewrite <- !app_assoc. reflexivity.
+        * split; [intros _; right; exact Hne'|]. intros _. split; [exact Hne' | lia].
+      + destruct IH as [Es' Hinv']. split; [exact Es' | exact Hinv'].
+      + exact I.
+    - destruct HS as [Es Hinv2]. rewrite Es.
+      destruct (plus && first)%bool eqn:Epf.
+      + split; [reflexivity | apply inv_set_pos; exact Hinv2].
+      + exists (sacc ++ sts). split; [reflexivity|]. exists acc1. cbn [pos set_pos].
+        split; [reflexivity|]. split; [exact He1|]. split; [exact Hcl1|]. split; [apply inv_set_pos; exact Hinv2|].
+        split; [lia|]. split; [exact Htr1|]. split; [exists rest1; exact Hrest1|]. split.
+        * intros Hf. destruct (Hfirst Hf) as [-> ->]. left. split; [reflexivity | apply app_nil_r].
+        * intro X. rewrite Epf in X. discriminate.
+    - exact I. }
+  rewrite rep_loop_S, srep_S.
+  assert (Hself : exists rest, flatten (RList acc) = flatten (RList acc) ++ rest) by (exists []; rewrite app_nil_r; reflexivity).
+  assert (Hea0 : erase_all (sacc ++ []) = flatten (RList acc)) by (rewrite app_nil_r; exact Hea).
+  destruct sep as [sp|].
+  - destruct first.
+    + apply (Helem acc [] s Hinv (le_n _) Hea0 Hcl Htr Hself). intros _. split; reflexivity.
+    + pose proof (Hsim sp false s Hinv (Hsepv sp eq_refl)) as HS.
+      destruct (rec sp false s) as [sr s1|s1|w] eqn:E.
+      * destruct HS as [sts [Es [Ee [Hcr [Hinv1 [Hle _]]]]]]. rewrite Es.
+        set (acc1 := if truthy sr then acc ++ [sr] else acc).
+        assert (Hfl : flatten (RList acc1) = flatten (RList acc) ++ flatten sr).
+        { subst acc1. destruct (truthy sr) eqn:Et; [apply flatten_app|].
+          rewrite (clean_falsy _ Hcr Et). rewrite app_nil_r. reflexivity. }
+        apply (Helem acc1 sts s1 Hinv1 Hle).
+        -- rewrite erase_all_app, Hea, Ee, Hfl. reflexivity.
+        -- unfold clean. rewrite Hfl. apply Forall_app. split; [exact Hcl | exact Hcr].
+        -- subst acc1. destruct (truthy sr) eqn:Et; [|exact Htr]. apply Forall_app. split; [exact Htr|]. constructor; [exact Et | constructor].
+        -- exists (flatten sr). exact Hfl.
+        -- intro X; discriminate.
+      * destruct HS as [Es Hinv1]. rewrite Es. rewrite andb_false_r.
+        exists sacc. split; [reflexivity|]. exists acc. cbn [pos set_pos].
+        split; [reflexivity|]. split; [exact Hea|]. split; [exact Hcl|]. split; [apply inv_set_pos; exact Hinv1|].
+        split; [lia|]. split; [exact Htr|]. split; [exact Hself|]. split; [intro X; discriminate|].
+        intro X. rewrite andb_false_r in X. discriminate.
+      * exact I.
+  - apply (Helem acc [] s Hinv (le_n _) Hea0 Hcl Htr Hself). intros _. split; reflexivity.
 Qed.
 
 Lemma inv_reg_fail p s : inv s -> inv (reg_fail p s).
 Proof.
-  intros [H1 H2 H3 H4]. unfold reg_fail. destruct (nm s) as [q|].
+  intros [H1 H2 H3 H4 H5]. unfold reg_fail. destruct (nm s) as [q|].
   - rewrite H3. destruct (Nat.ltb q p); constructor; cbn; assumption.
   - constructor; cbn; assumption.
 Qed.
@@ -345,75 +440,128 @@ Proof. intros H1 H2. unfold ctx_enter. rewrite H1, H2. destruct x; reflexivity. 
 Lemma ctx_eol_id nd : n_eolterm nd = false -> ctx_eol nd x = x.
 Proof. intro H. unfold ctx_eol. rewrite H. reflexivity. Qed.
 
+End Refine1.
+
 Definition opt_is_none {A} (o : option A) : o = None <-> opt_none o = true.
 Proof. destruct o; cbn; split; congruence. Qed.
-
-(* what body_sim concludes *)
-Definition body_post (nd : node) (s : st) (r : res) (s' : st) (ts : list stree) : Prop :=
-  erase_all ts = flatten r /\ clean r /\ inv s' /\ pos s <= pos s' /\ is_ptnode r = false /\
-  (head_is_none r = true -> flatten r = []) /\
-  (n_root nd = true -> flatten r = [] ->
-     truthy (if head_is_none r then RNone else r) = false /\ ts = [] /\ (n_kind nd = KOpt \/ n_kind nd = KStar)) /\
-  (forall k, prod_nd (prodb g k) nd = true -> flatten r <> [] /\ pos s < pos s').
 
 Lemma head_not_none_of_truthy acc : Forall (fun r => truthy r = true) acc -> head_is_none (RList acc) = false.
 Proof. intro H. destruct acc as [|a l]; [reflexivity|]. inversion H; subst. destruct a; [discriminate | reflexivity | reflexivity]. Qed.
 
-Lemma body_sim rec srec k nd pf s :
-  sim rec srec -> node_ok g (prodb g pf) nd = true ->
-  inv s -> is_match_kind (n_kind nd) = false ->
+(* ---------------------------------------------------------------- whitespace contexts *)
+Definition okx (x : sctx) : Prop := x_eol x = false /\ x_incmt x = false.
+
+Lemma okx_enter nd x : okx x -> okx (ctx_enter nd x).
+Proof. intros [A B]. split; assumption. Qed.
+
+Lemma enter_ws_pos nd s : pos (enter_ws nd s) = pos s.
+Proof. unfold enter_ws. destruct (n_ws nd), (n_skipws nd); reflexivity. Qed.
+Lemma leave_ws_pos nd s s1 : pos (leave_ws nd s s1) = pos s1.
+Proof. unfold leave_ws. destruct (n_ws nd), (n_skipws nd); reflexivity. Qed.
+
+Lemma enter_ws_inv x nd s : inv x s -> inv (ctx_enter nd x) (enter_ws nd s).
+Proof.
+  intros [H1 H2 H3 H4 H5]. unfold enter_ws, ctx_enter, set_ws, set_skipws.
+  destruct (n_ws nd), (n_skipws nd); constructor; cbn; try rewrite H5; try assumption; reflexivity.
+Qed.
+
+Lemma leave_ws_inv x nd s s1 : inv x s -> inv (ctx_enter nd x) s1 -> inv x (leave_ws nd s s1).
+Proof.
+  intros [H1 H2 H3 H4 H5] [G1 G2 G3 G4 G5]. unfold leave_ws, set_ws, set_skipws. unfold ctx_enter in G1, G2. cbn in G1, G2.
+  destruct (n_ws nd), (n_skipws nd); constructor; cbn; try rewrite G5; try assumption; reflexivity.
+Qed.
+
+Section Refine2.
+Variable g : grammar.
+Variable input : list N.
+Variable orc : nat -> nat -> option nat.
+Hypothesis Hcm : g_comments g = None.
+Hypothesis Horc : orc_pos orc.
+
+Definition sim_all (rec : nat -> bool -> st -> out) (srec : nat -> bool -> sctx -> nat -> sres) : Prop :=
+  forall x, okx x -> sim g x rec srec.
+
+(* what body_sim concludes *)
+Definition body_post (x : sctx) (nd : node) (s : st) (r : res) (s' : st) (ts : list stree) : Prop :=
+  erase_all ts = flatten r /\ clean r /\ inv x s' /\ pos s <= pos s' /\ is_ptnode r = false /\
+  (head_is_none r = true -> flatten r = []) /\
+  (live_root nd = true -> flatten r = [] ->
+     truthy (if head_is_none r then RNone else r) = false /\ ts = [] /\ (n_kind nd = KOpt \/ n_kind nd = KStar)) /\
+  (forall k, prod_nd (prodb g k) nd = true -> flatten r <> [] /\ pos s < pos s').
+
+Lemma body_post_none x nd s s' :
+  inv x s' -> pos s <= pos s' -> live_root nd = false -> (forall k, prod_nd (prodb g k) nd = false) ->
+  body_post x nd s RNone s' [].
+Proof.
+  intros Hi Hl Hr Hp. unfold body_post.
+  split; [reflexivity|]. split; [constructor|]. split; [exact Hi|]. split; [exact Hl|]. split; [reflexivity|].
+  split; [intro X; discriminate|]. split; [intro X; rewrite Hr in X; discriminate|].
+  intros k X. rewrite Hp in X. discriminate.
+Qed.
+
+Lemma body_sim rec srec k nd pf x s :
+  sim_all rec srec -> okx x -> node_ok g (prodb g pf) nd = true ->
+  inv x s -> is_match_kind (n_kind nd) = false ->
   match body rec k nd s with
-  | Ok r s' => exists ts, sbody srec k nd x (pos s) = SOk ts (pos s') /\ body_post nd s r s' ts
-  | Fail s' => sbody srec k nd x (pos s) = SFail /\ inv s'
+  | Ok r s' => exists ts, sbody true srec k nd x (pos s) = SOk ts (pos s') /\ body_post x nd s r s' ts
+  | Fail s' => sbody true srec k nd x (pos s) = SFail /\ inv x s'
   | Abort _ => True
   end.
 Proof.
-  intros Hsim Hok Hinv Hnm. unfold node_ok in Hok.
+  intros Hall Hokx Hok Hinv Hnm. unfold node_ok in Hok.
+  pose proof (Hall x Hokx) as Hsim.
   assert (Hpr : forall c, prodb g pf c = true -> exists j, prodb g j c = true) by (intros c Hc; exists pf; exact Hc).
   apply andb_true_iff in Hok as [Hok Hkind]. apply andb_true_iff in Hok as [Hok Hkids].
-  apply andb_true_iff in Hok as [Hok Hskip]. apply andb_true_iff in Hok as [Hok Hws].
-  apply andb_true_iff in Hok as [Hok Heol]. apply andb_true_iff in Hok as [Hsup Hsep].
-  apply opt_is_none in Hskip. apply opt_is_none in Hws. apply opt_is_none in Hsep.
-  apply negb_true_iff in Heol. apply negb_true_iff in Hsup.
-  assert (Hval : Forall valid (n_kids nd)).
+  apply andb_true_iff in Hok as [Hok Hmods]. apply andb_true_iff in Hok as [Hsepok Heol].
+  apply negb_true_iff in Heol.
+  assert (Hval : Forall (valid g) (n_kids nd)).
   { apply Forall_forall. intros c Hc. rewrite forallb_forall in Hkids. specialize (Hkids c Hc). apply Nat.ltb_lt in Hkids. exact Hkids. }
   unfold body, sbody.
   destruct (n_kind nd) eqn:Ek; try discriminate.
   - (* KSeq *)
-    unfold enter_ws, leave_ws. rewrite Hws, Hskip. rewrite (ctx_enter_id nd Hws Hskip).
-    pose proof (seq_sim rec srec true (n_kids nd) Hsim Hval [] [] s Hinv eq_refl (Forall_nil _) (Forall_nil _)) as HS.
-    destruct (seq_loop rec true (n_kids nd) [] s) as [r s1|s1|w] eqn:E.
+    set (x' := ctx_enter nd x). set (s0 := enter_ws nd s).
+    assert (Hinv0 : inv x' s0) by (apply enter_ws_inv; exact Hinv).
+    assert (Hp0 : pos s0 = pos s) by apply enter_ws_pos.
+    pose proof (seq_sim g x' rec srec true (n_kids nd) (Hall x' (okx_enter nd x Hokx)) Hval [] [] s0 Hinv0 eq_refl (Forall_nil _) (Forall_nil _)) as HS.
+    rewrite Hp0 in HS.
+    destruct (seq_loop rec true (n_kids nd) [] s0) as [r s1|s1|w] eqn:E.
     + destruct HS as [acc' [ts [Er [Es [Ee [Hcl [Hinv1 [Hle [Htr [_ Hprod]]]]]]]]]]. subst r.
+      assert (Hinvl : inv x (leave_ws nd s s1)) by (apply leave_ws_inv; assumption).
       assert (Hpost : forall r0, flatten r0 = flatten (RList acc') -> clean r0 -> is_ptnode r0 = false ->
-                                 head_is_none r0 = false -> body_post nd s r0 s1 ts).
-      { intros r0 Hf Hc0 Hpt Hh. unfold body_post. rewrite Hf.
-        split; [exact Ee|]. split; [exact Hc0|]. split; [exact Hinv1|]. split; [exact Hle|]. split; [exact Hpt|].
+                                 head_is_none r0 = false -> body_post x nd s r0 (leave_ws nd s s1) ts).
+      { intros r0 Hf Hc0 Hpt Hh. unfold body_post. rewrite Hf, leave_ws_pos.
+        split; [exact Ee|]. split; [exact Hc0|]. split; [exact Hinvl|]. split; [exact Hle|]. split; [exact Hpt|].
         split; [rewrite Hh; discriminate|]. split.
-        - intros Hr X. exfalso. rewrite Hr in Hkind. unfold prod_nd in Hkind. rewrite Ek, Hsup in Hkind. cbn in Hkind.
-          destruct (Hprod _ Hkind) as [Y _]. contradiction.
-        - intros j Hj. unfold prod_nd in Hj. rewrite Ek, Hsup in Hj. cbn in Hj. apply (Hprod j Hj). }
+        - intros Hr X. exfalso. rewrite Hr in Hkind.
+          assert (Y : prod_nd (prodb g pf) nd = true) by exact Hkind.
+          unfold prod_nd in Y. rewrite Ek in Y. apply andb_true_iff in Y as [_ Y].
+          destruct (Hprod _ Y) as [Z _]. contradiction.
+        - intros j Hj. unfold prod_nd in Hj. rewrite Ek in Hj. apply andb_true_iff in Hj as [_ Hj]. apply (Hprod j Hj). }
       destruct acc' as [|a l].
-      * exists ts. split; [exact Es|]. apply Hpost; try reflexivity. constructor.
-      * exists ts. split; [exact Es|]. apply Hpost; try reflexivity; try exact Hcl.
+      * exists ts. rewrite leave_ws_pos. split; [exact Es|]. apply Hpost; try reflexivity. constructor.
+      * exists ts. rewrite leave_ws_pos. split; [exact Es|]. apply Hpost; try reflexivity; try exact Hcl.
         apply head_not_none_of_truthy. exact Htr.
-    + destruct HS as [Es Hinv1]. split; [exact Es | apply inv_set_pos; exact Hinv1].
+    + destruct HS as [Es Hinv1]. split; [exact Es|]. apply leave_ws_inv; [exact Hinv | apply inv_set_pos; exact Hinv1].
     + exact I.
   - (* KChoice *)
-    unfold enter_ws, leave_ws. rewrite Hws, Hskip. rewrite (ctx_enter_id nd Hws Hskip).
-    apply andb_true_iff in Hkind as [Hall Hne].
+    set (x' := ctx_enter nd x). set (s0 := enter_ws nd s).
+    assert (Hinv0 : inv x' s0) by (apply enter_ws_inv; exact Hinv).
+    assert (Hp0 : pos s0 = pos s) by apply enter_ws_pos.
+    apply andb_true_iff in Hkind as [Hall' Hne].
     assert (Hprodk : forall c, In c (n_kids nd) -> exists j, prodb g j c = true).
-    { intros c Hc. apply Hpr. rewrite forallb_forall in Hall. apply Hall. exact Hc. }
-    pose proof (choice_sim rec srec (pos s) (n_kids nd) Hsim Hval Hprodk s Hinv eq_refl) as HS.
-    destruct (choice_loop rec (pos s) (n_kids nd) s) as [r s1|s1|w] eqn:E.
+    { intros c Hc. apply Hpr. rewrite forallb_forall in Hall'. apply Hall'. exact Hc. }
+    pose proof (choice_sim g x' rec srec (pos s) (n_kids nd) (Hall x' (okx_enter nd x Hokx)) Hval Hprodk s0 Hinv0 Hp0) as HS.
+    destruct (choice_loop rec (pos s) (n_kids nd) s0) as [r s1|s1|w] eqn:E.
     + destruct HS as [[Hnn [ts [Es [Ee [Hcl [Hinv1 [Hlt Hne']]]]]]] | [Hn [Es Hinv1]]].
-      * rewrite Hnn. exists ts. split; [exact Es|]. unfold body_post.
+      * rewrite Hnn. exists ts. rewrite leave_ws_pos. split; [exact Es|]. unfold body_post.
         assert (Hf : flatten (RList [r]) = flatten r) by (rewrite flatten_list; cbn; apply app_nil_r).
-        rewrite Hf.
-        split; [exact Ee|]. split; [unfold clean; rewrite Hf; exact Hcl|]. split; [exact Hinv1|]. split; [lia|].
+        rewrite Hf, leave_ws_pos.
+        split; [exact Ee|]. split; [unfold clean; rewrite Hf; exact Hcl|].
+        split; [apply leave_ws_inv; assumption|]. split; [lia|].
         split; [reflexivity|].
         assert (Hh : head_is_none (RList [r]) = false) by (destruct r; [discriminate | reflexivity | reflexivity]).
         split; [rewrite Hh; discriminate|]. split; [intros _ X; contradiction|]. intros _ _. split; [exact Hne' | exact Hlt].
-      * rewrite Hn. unfold nm_raise. split; [exact Es | apply inv_reg_fail; exact Hinv1].
+      * rewrite Hn. unfold nm_raise. split; [exact Es|]. apply inv_reg_fail. apply leave_ws_inv; assumption.
     + destruct HS.
     + exact I.
   - (* KOpt *)
@@ -429,36 +577,40 @@ Proof.
       * intro Hh. destruct r; [reflexivity | discriminate | discriminate].
       * split.
         -- intros Hr X. exfalso. rewrite Hr in Hkind. destruct (Hpr e Hkind) as [j Hj]. destruct (Hp j Hj) as [Y _]. contradiction.
-        -- intros j Hj. unfold prod_nd in Hj. rewrite Ek, Hsup in Hj. discriminate.
+        -- intros j Hj. unfold prod_nd in Hj. rewrite Ek in Hj. rewrite andb_false_r in Hj. discriminate.
     + destruct HS as [Es Hinv1]. rewrite Es. exists []. split; [reflexivity|]. unfold body_post. cbn [pos set_pos flatten].
       split; [reflexivity|]. split; [constructor|]. split; [apply inv_set_pos; exact Hinv1|]. split; [lia|].
       split; [reflexivity|]. split; [reflexivity|]. split.
       * intros _ _. split; [reflexivity|]. split; [reflexivity | left; exact Ek].
-      * intros j Hj. unfold prod_nd in Hj. rewrite Ek, Hsup in Hj. discriminate.
+      * intros j Hj. unfold prod_nd in Hj. rewrite Ek in Hj. rewrite andb_false_r in Hj. discriminate.
     + exact I.
   - (* KStar *)
     destruct (n_kids nd) as [|e rest] eqn:Ekids; [discriminate|].
     inversion Hval as [|? ? He _]; subst.
-    unfold enter_eol, leave_eol. rewrite Heol. rewrite (ctx_eol_id nd Heol). rewrite Hsep.
-    pose proof (rep_sim rec srec e false Hsim He (Hpr e Hkind) k true [] [] s Hinv eq_refl (Forall_nil _) (Forall_nil _)) as HS.
-    destruct (rep_loop rec e None false k true [] s) as [r s1|s1|w] eqn:E.
-    + destruct HS as [acc' [ts [Er [Es [Ee [Hcl [Hinv1 [Hle [Htr [Hdich _]]]]]]]]]]. subst r.
+    unfold enter_eol, leave_eol. rewrite Heol. unfold ctx_eol. rewrite Heol.
+    assert (Hsepv : forall sp, n_sep nd = Some sp -> valid g sp).
+    { intros sp E. unfold sep_ok in Hsepok. rewrite E, Ek in Hsepok. apply Nat.ltb_lt in Hsepok. exact Hsepok. }
+    pose proof (rep_sim g x rec srec e (n_sep nd) false Hsim He (Hpr e Hkind) Hsepv k true [] [] s Hinv eq_refl (Forall_nil _) (Forall_nil _)) as HS.
+    destruct (rep_loop rec e (n_sep nd) false k true [] s) as [r s1|s1|w] eqn:E.
+    + destruct HS as [ts [Es [acc' [Er [Ee [Hcl [Hinv1 [Hle [Htr [_ [Hdich _]]]]]]]]]]]. subst r.
       exists ts. split; [exact Es|]. unfold body_post.
       split; [exact Ee|]. split; [exact Hcl|]. split; [exact Hinv1|]. split; [exact Hle|]. split; [reflexivity|].
       rewrite (head_not_none_of_truthy _ Htr).
       split; [discriminate|]. split.
-      * intros _ X. destruct Hdich as [[-> ->]|Y]; [|contradiction].
+      * intros _ X. destruct (Hdich eq_refl) as [[-> ->]|Y]; [|contradiction].
         split; [reflexivity|]. split; [reflexivity | right; exact Ek].
-      * intros j Hj. unfold prod_nd in Hj. rewrite Ek, Hsup in Hj. discriminate.
+      * intros j Hj. unfold prod_nd in Hj. rewrite Ek in Hj. rewrite andb_false_r in Hj. discriminate.
     + destruct HS as [Es Hinv1]. split; [exact Es | exact Hinv1].
     + exact I.
   - (* KPlus *)
     destruct (n_kids nd) as [|e rest] eqn:Ekids; [discriminate|].
     inversion Hval as [|? ? He _]; subst.
-    unfold enter_eol, leave_eol. rewrite Heol. rewrite (ctx_eol_id nd Heol). rewrite Hsep.
-    pose proof (rep_sim rec srec e true Hsim He (Hpr e Hkind) k true [] [] s Hinv eq_refl (Forall_nil _) (Forall_nil _)) as HS.
-    destruct (rep_loop rec e None true k true [] s) as [r s1|s1|w] eqn:E.
-    + destruct HS as [acc' [ts [Er [Es [Ee [Hcl [Hinv1 [Hle [Htr [_ Hpf]]]]]]]]]]. subst r.
+    unfold enter_eol, leave_eol. rewrite Heol. unfold ctx_eol. rewrite Heol.
+    assert (Hsepv : forall sp, n_sep nd = Some sp -> valid g sp).
+    { intros sp E. unfold sep_ok in Hsepok. rewrite E, Ek in Hsepok. apply Nat.ltb_lt in Hsepok. exact Hsepok. }
+    pose proof (rep_sim g x rec srec e (n_sep nd) true Hsim He (Hpr e Hkind) Hsepv k true [] [] s Hinv eq_refl (Forall_nil _) (Forall_nil _)) as HS.
+    destruct (rep_loop rec e (n_sep nd) true k true [] s) as [r s1|s1|w] eqn:E.
+    + destruct HS as [ts [Es [acc' [Er [Ee [Hcl [Hinv1 [Hle [Htr [_ [_ Hpf]]]]]]]]]]]. subst r.
       destruct (Hpf eq_refl) as [Hne Hlt].
       exists ts. split; [exact Es|]. unfold body_post.
       split; [exact Ee|]. split; [exact Hcl|]. split; [exact Hinv1|]. split; [exact Hle|]. split; [reflexivity|].
@@ -466,63 +618,94 @@ Proof.
       split; [discriminate|]. split; [intros _ X; contradiction|]. intros _ _. split; [exact Hne | exact Hlt].
     + destruct HS as [Es Hinv1]. split; [exact Es | exact Hinv1].
     + exact I.
+  - (* KAnd *)
+    apply negb_true_iff in Hkind.
+    assert (Hnp : forall j, prod_nd (prodb g j) nd = false) by (intro j; unfold prod_nd; rewrite Ek; apply andb_false_r).
+    pose proof (seq_sim g x rec srec false (n_kids nd) Hsim Hval [] [] s Hinv eq_refl (Forall_nil _) (Forall_nil _)) as HS.
+    destruct (seq_loop rec false (n_kids nd) [] s) as [r s1|s1|w] eqn:E.
+    + destruct HS as [acc' [ts [_ [Es [_ [_ [Hinv1 _]]]]]]]. rewrite Es. exists []. split; [reflexivity|].
+      apply body_post_none; [apply inv_set_pos; exact Hinv1 | cbn; lia | exact Hkind | exact Hnp].
+    + destruct HS as [Es Hinv1]. rewrite Es. split; [reflexivity | apply inv_set_pos; exact Hinv1].
+    + exact I.
+  - (* KNot *)
+    apply negb_true_iff in Hkind.
+    assert (Hnp : forall j, prod_nd (prodb g j) nd = false) by (intro j; unfold prod_nd; rewrite Ek; apply andb_false_r).
+    pose proof (seq_sim g x rec srec false (n_kids nd) Hsim Hval [] [] s Hinv eq_refl (Forall_nil _) (Forall_nil _)) as HS.
+    destruct (seq_loop rec false (n_kids nd) [] s) as [r s1|s1|w] eqn:E.
+    + destruct HS as [acc' [ts [_ [Es [_ [_ [Hinv1 _]]]]]]]. rewrite Es. unfold nm_raise.
+      split; [reflexivity|]. apply inv_reg_fail. apply inv_set_pos. exact Hinv1.
+    + destruct HS as [Es Hinv1]. rewrite Es. exists []. split; [reflexivity|].
+      apply body_post_none; [apply inv_set_pos; exact Hinv1 | cbn; lia | exact Hkind | exact Hnp].
+    + exact I.
+  - (* KEmpty *)
+    apply negb_true_iff in Hkind.
+    assert (Hnp : forall j, prod_nd (prodb g j) nd = false) by (intro j; unfold prod_nd; rewrite Ek; apply andb_false_r).
+    exists []. split; [reflexivity|]. apply body_post_none; [exact Hinv | lia | exact Hkind | exact Hnp].
 Qed.
 
 Variable pf : nat.
 Hypothesis Hwf : forall nid nd, get_node g nid = Some nd -> node_ok g (prodb g pf) nd = true.
 
-Lemma parse_sim : forall f, sim (parse g input orc false f) (seval g input orc f).
+Lemma parse_sim : forall f, sim_all (parse g input orc false f) (seval g input orc true f).
 Proof.
-  induction f as [|f IH]; intros nid psq s Hinv Hv.
+  induction f as [|f IH]; intros x Hokx nid psq s Hinv Hv.
   - cbn. exact I.
-  - cbn [parse seval].
+  - destruct Hokx as [Hx_eol Hx_cmt]. cbn [parse seval].
     destruct (get_node g nid) as [nd|] eqn:En.
     2:{ exfalso. unfold get_node in En. apply nth_error_None in En. unfold valid in Hv. lia. }
     pose proof (Hwf _ _ En) as Hok.
     destruct (is_match_kind (n_kind nd)) eqn:Em.
     + (* terminals *)
-      destruct (match_pre_sim (parse g input orc false f) f s Hinv) as [s1 [Emp [Hinv1 [Hp1 Hle1]]]]. rewrite Emp.
-      assert (Esk : skip g input (seval g input orc f) f x (pos s) = Some (pos s1)).
+      destruct (match_pre_sim g input x Hx_eol Hcm (parse g input orc false f) f s Hinv) as [s1 [Emp [Hinv1 [Hp1 Hle1]]]]. rewrite Emp.
+      assert (Esk : skip g input (seval g input orc true f) f x (pos s) = Some (pos s1)).
       { unfold skip. rewrite Hx_cmt, Hcm, Hp1. destruct (x_skip x); reflexivity. }
       rewrite Esk.
-      unfold node_ok in Hok.
-      apply andb_true_iff in Hok as [Hok Hkind]. apply andb_true_iff in Hok as [Hok _].
-      apply andb_true_iff in Hok as [Hok _]. apply andb_true_iff in Hok as [Hok _].
-      apply andb_true_iff in Hok as [Hok _]. apply andb_true_iff in Hok as [Hsup _].
-      apply negb_true_iff in Hsup.
+      unfold node_ok in Hok. apply andb_true_iff in Hok as [_ Hkind].
       assert (Hne : forall t o, n_kind nd = KStr t o -> t <> []).
       { intros t o E. rewrite E in Hkind. destruct t; [discriminate | discriminate]. }
-      pose proof (term_sim nid (n_kind nd) psq s1 Hinv1 Em Hne) as HT.
+      pose proof (term_sim input orc x Horc nid (n_kind nd) psq s1 Hinv1 Em Hne) as HT.
       destruct (term_parse input orc nid (n_kind nd) psq s1) as [r s2|s2|w] eqn:Et.
-      * destruct HT as [ts [Es [Ee [Hcl [Hinv2 [Hle2 Hp]]]]]]. rewrite Es. rewrite Hsup.
-        exists ts. split; [reflexivity|]. split; [exact Ee|]. split; [exact Hcl|]. split; [exact Hinv2|]. split; [lia|].
-        intros k Hk. destruct k as [|k]; [rewrite prodb_0 in Hk; discriminate|].
-        rewrite (prodb_S k nid nd En) in Hk. unfold prod_nd in Hk. rewrite Hsup in Hk. cbn [negb andb] in Hk.
-        assert (Hke : n_kind nd <> KEOF) by (intro X; rewrite X in Hk; discriminate).
-        destruct (Hp Hke) as [A B]. split; [exact A | lia].
+      * destruct HT as [ts [Es [Ee [Hcl [Hinv2 [Hle2 Hp]]]]]]. rewrite Es.
+        destruct (n_suppress nd) eqn:Hsup.
+        -- exists [SSup ts]. split; [reflexivity|]. split; [reflexivity|]. split; [constructor|]. split; [exact Hinv2|]. split; [lia|].
+           intros k Hk. destruct k as [|k]; [rewrite prodb_0 in Hk; discriminate|].
+           rewrite (prodb_S g k nid nd En) in Hk. unfold prod_nd in Hk. rewrite Hsup in Hk. discriminate.
+        -- exists ts. split; [reflexivity|]. split; [exact Ee|]. split; [exact Hcl|]. split; [exact Hinv2|]. split; [lia|].
+           intros k Hk. destruct k as [|k]; [rewrite prodb_0 in Hk; discriminate|].
+           rewrite (prodb_S g k nid nd En) in Hk. unfold prod_nd in Hk. rewrite Hsup in Hk. cbn [negb andb] in Hk.
+           assert (Hke : n_kind nd <> KEOF) by (intro X; rewrite X in Hk; discriminate).
+           destruct (Hp Hke) as [A B]. split; [exact A | lia].
       * destruct HT as [Es Hinv2]. rewrite Es. split; [reflexivity | exact Hinv2].
       * exact I.
     + (* non-terminals; memoization is off *)
       cbv iota.
-      pose proof (body_sim (parse g input orc false f) (seval g input orc f) f nd pf s IH Hok Hinv Em) as HB.
+      pose proof (body_sim (parse g input orc false f) (seval g input orc true f) f nd pf x s IH (conj Hx_eol Hx_cmt) Hok Hinv Em) as HB.
       destruct (body (parse g input orc false f) f nd s) as [r s1|s1|w] eqn:Eb.
       * destruct HB as [ts [Es [Ee [Hcl [Hinv1 [Hle [Hpt [Hhead [Hroot Hprod]]]]]]]]]. rewrite Es.
-        assert (Hsup : n_suppress nd = false).
-        { unfold node_ok in Hok. repeat (apply andb_true_iff in Hok as [Hok _]). apply negb_true_iff in Hok. exact Hok. }
-        unfold post, wrap. rewrite Hsup. cbn [orb].
+        unfold post, wrap.
+        destruct (n_suppress nd) eqn:Hsup.
+        { (* suppressed: nothing is contributed *)
+          cbn [orb]. replace (n_root nd && truthy RNone && negb (is_ptnode RNone))%bool with false
+            by (cbn; rewrite andb_false_r; reflexivity).
+          exists [SSup ts]. split; [reflexivity|]. split; [reflexivity|]. split; [constructor|]. split; [exact Hinv1|].
+          split; [exact Hle|].
+          intros k Hk. destruct k as [|k]; [rewrite prodb_0 in Hk; discriminate|].
+          rewrite (prodb_S g k nid nd En) in Hk. unfold prod_nd in Hk. rewrite Hsup in Hk. discriminate. }
+        cbn [orb].
         set (r1 := if head_is_none r then RNone else r).
         assert (Hf1 : flatten r1 = flatten r).
         { subst r1. destruct (head_is_none r) eqn:Eh; [|reflexivity]. rewrite (Hhead eq_refl). reflexivity. }
         assert (Hcl1 : clean r1) by (unfold clean; rewrite Hf1; exact Hcl).
         assert (Hpt1 : is_ptnode r1 = false) by (subst r1; destruct (head_is_none r); [reflexivity | exact Hpt]).
         destruct (n_root nd) eqn:Er.
-        -- destruct (flatten r) as [|t0 l0] eqn:Efl.
-           ++ destruct (Hroot eq_refl eq_refl) as [Htf [Hts Hk]]. fold r1 in Htf. rewrite Htf. cbn [andb]. subst ts.
+        -- assert (Hlive : live_root nd = true) by (unfold live_root; rewrite Er, Hsup; reflexivity).
+           destruct (flatten r) as [|t0 l0] eqn:Efl.
+           ++ destruct (Hroot Hlive eq_refl) as [Htf [Hts Hk]]. fold r1 in Htf. rewrite Htf. cbn [andb]. subst ts.
               exists []. split.
               ** destruct Hk as [-> | ->]; reflexivity.
               ** split; [rewrite Hf1; reflexivity|]. split; [exact Hcl1|]. split; [exact Hinv1|]. split; [exact Hle|].
                  intros k Hk'. destruct k as [|k]; [rewrite prodb_0 in Hk'; discriminate|].
-                 rewrite (prodb_S k nid nd En) in Hk'. destruct (Hprod k Hk') as [A _]. exfalso. apply A. reflexivity.
+                 rewrite (prodb_S g k nid nd En) in Hk'. destruct (Hprod k Hk') as [A _]. exfalso. apply A. reflexivity.
            ++ assert (Hne : flatten r1 <> []) by (rewrite Hf1; discriminate).
               rewrite (clean_truthy _ Hcl1 Hne), Hpt1. cbn [andb negb].
               assert (Hts : ts <> []) by (intro X; subst ts; cbn in Ee; discriminate).
@@ -532,16 +715,16 @@ Proof.
                  split; [unfold clean; cbn [flatten]; constructor; [|constructor]; cbn; rewrite Hf1; reflexivity|].
                  split; [exact Hinv1|]. split; [exact Hle|].
                  intros k Hk'. destruct k as [|k]; [rewrite prodb_0 in Hk'; discriminate|].
-                 rewrite (prodb_S k nid nd En) in Hk'. destruct (Hprod k Hk') as [_ B]. split; [discriminate | exact B].
+                 rewrite (prodb_S g k nid nd En) in Hk'. destruct (Hprod k Hk') as [_ B]. split; [discriminate | exact B].
         -- cbn [andb]. exists ts. split; [reflexivity|]. split; [rewrite Hf1; exact Ee|]. split; [exact Hcl1|].
            split; [exact Hinv1|]. split; [exact Hle|].
            intros k Hk'. destruct k as [|k]; [rewrite prodb_0 in Hk'; discriminate|].
-           rewrite (prodb_S k nid nd En) in Hk'. destruct (Hprod k Hk') as [A B]. split; [rewrite Hf1; exact A | exact B].
+           rewrite (prodb_S g k nid nd En) in Hk'. destruct (Hprod k Hk') as [A B]. split; [rewrite Hf1; exact A | exact B].
       * destruct HB as [Es Hinv1]. rewrite Es. split; [reflexivity | apply inv_set_pos; exact Hinv1].
       * exact I.
 Qed.
 
-End Refine.
+End Refine2.
 
 Lemma wfg_parts g pf :
   wfg g pf = true ->
@@ -558,19 +741,19 @@ Qed.
 
 (* Inside the class, whenever the interpreter terminates within the fuel, it accepts exactly when
    the reference semantics accept, with the same parse tree. *)
-Theorem refinement g pf c orc fuel input :
+Theorem refinement_q g pf c orc fuel input :
   wfg g pf = true -> orc_pos orc ->
   match run g c orc false fuel input with
-  | Parsed r => exists ts p, spec_run g c orc fuel input = SOk ts p /\ erase_all ts = flatten r
-  | SyntaxErr _ => spec_run g c orc fuel input = SFail
+  | Parsed r => exists ts p, spec_run_q g c orc fuel input = SOk ts p /\ erase_all ts = flatten r
+  | SyntaxErr _ => spec_run_q g c orc fuel input = SFail
   | Aborted _ => True
   end.
 Proof.
   intros Hwf Horc. destruct (wfg_parts g pf Hwf) as [Hnodes [Hcm Htop]].
   assert (Hinv : inv (init_ctx c) (init_st c)).
   { constructor; cbn; try reflexivity. constructor. }
-  pose proof (parse_sim g input orc (init_ctx c) eq_refl eq_refl Hcm Horc pf Hnodes fuel (g_top g) false (init_st c) Hinv Htop) as HS.
-  unfold run, spec_run. cbn [pos init_st] in HS.
+  pose proof (parse_sim g input orc Hcm Horc pf Hnodes fuel (init_ctx c) (conj eq_refl eq_refl) (g_top g) false (init_st c) Hinv Htop) as HS.
+  unfold run, spec_run_q. cbn [pos init_st] in HS.
   destruct (parse g input orc false fuel (g_top g) false (init_st c)) as [r s'|s'|w].
   - destruct HS as [ts [Es [Ee _]]]. exists ts, (pos s'). split; assumption.
   - destruct HS as [Es _]. exact Es.
@@ -637,12 +820,15 @@ Definition g_trailsep : grammar := (mkGrammar [mkNode KSeq [1;10] None false [77
   mkNode KSeq [9] None false [95;95;97;115;103;110;95;112;108;97;105;110]%N true false None None;
   mkNode (KStr [98]%N None) [] None false [66]%N true false None None;
   mkNode KEOF [] None false [69;79;70]%N false false None None] 0 None).
+(* the grammar is in the class; the interpreter's tree is the trailing-separator variant's, not the documented one *)
 Lemma refuted_trailsep :
-  wfg g_trailsep 24 = false /\
+  wfg g_trailsep 24 = true /\
   run_tree (run g_trailsep c_default (fun _ _ => None) false 50 [120;44;98]%N) =
     [NT 0 [NT 1 [NT 2 [NT 3 [NT 4 [T 5 0 1 false; T 6 1 1 false]]]; T 7 1 1 true; NT 8 [T 9 2 1 true]]; T 10 3 0 true]] /\
   spec_tree (spec_run g_trailsep c_default (fun _ _ => None) 50 [120;44;98]%N) =
-    [NT 0 [NT 1 [NT 2 [NT 3 [NT 4 [T 5 0 1 false]]]; T 7 1 1 true; NT 8 [T 9 2 1 true]]; T 10 3 0 true]].
+    [NT 0 [NT 1 [NT 2 [NT 3 [NT 4 [T 5 0 1 false]]]; T 7 1 1 true; NT 8 [T 9 2 1 true]]; T 10 3 0 true]] /\
+  spec_tree (spec_run_q g_trailsep c_default (fun _ _ => None) 50 [120;44;98]%N) =
+    run_tree (run g_trailsep c_default (fun _ _ => None) false 50 [120;44;98]%N).
 Proof. vm_compute. repeat split. Qed.
 
 (* Model: x=/a*/ 'b';   on "b"  -- a regex match of length 0 (the oracle reports Some 0) *)
